@@ -76,6 +76,8 @@ def families(tier, seed):
     for order in ('cudd,autoref,cudd', 'autoref,cudd,autoref'):
         out.append(dict(name=f'make_functions on both back ends in one process, order {order}',
                         run=cfn.backend_sequence(seed, 40 if tier == 'quick' else 400, order), label='bounded'))
+    from contracts import optdiff as _od
+    out.append(dict(name='same results with assert statements stripped (python -O), section C14', run=_od.family('C14'), label='bounded'))
     return out
 
 
